@@ -50,3 +50,28 @@ CHECKS["C13"] = {
         {"name": "writer", "run": "^TestC13Writer$", "kind": "rapid", "checks": {"quick": 3000, "thorough": 60000}, "shards": {"quick": 4, "thorough": 16}},
     ],
 }
+
+CHECKS["C01"] = {
+    "pkg": "props/c01",
+    "level": "exploration",
+    "rule": "rapid-generated pipelined streams of 1..6 well-formed, unambiguously framed requests (methods incl. a custom token; header sets with repeated, mixed-case, obs-folded and near-miss framing names; "
+            "bodies 0 B..70 KiB (512 KiB in thorough) centred on 1 KiB/4 KiB/8 KiB/64 KiB boundaries and salted with HTTP look-alikes; Content-Length with leading zeros/identical duplicate, chunked with arbitrary chunk sizes, hex case, leading zeros, declared trailers; "
+            "Expect: 100-continue; HTTP/1.0 keep-alive; close on the last request) x segmentation (whole, byte-wise, fixed-size reads, cuts biased to message/chunk boundaries and 4 KiB multiples) x {buffered, streaming} x read buffer {1, 4096, 8192}, served by the real engine over a scripted connection. "
+            "Non-trivial = >=2 requests, or chunked, or body >=4 KiB, or a cut strictly inside a body, or a folded/near-miss/mixed-case framing header; distinct by FNV-64 of (stream bytes, config, cuts). "
+            "hostile-near-miss unit: exhaustive over every single-byte replacement at every position of the two framing names (value 5 / chunked) x real framing x placement x body mode.",
+    "assumptions": [
+        "obs-fold continuation lines that contain a colon are outside the generated domain (hertz rejects them with a clean 400, which RFC 7230 §3.2.4 allows)",
+        "chunk extensions are not generated (hertz answers 400; C03 covers rejections)",
+        "Host, Content-Type, User-Agent are never duplicated; no Cookie header in this generator",
+        "header equality uses normal forms: case-insensitive names, OWS trimmed, fold = one or more SP, hop-by-hop/framing fields compared through framing instead",
+    ],
+    "level_text": "Random exploration against an independent RFC 7230 framing model: handler observations (method, target, header multiset, exact body bytes, declared trailers) must equal the abstract requests, and the output must decode under a strict response reader to exactly one final response per request in order (plus 100-continue exactly when asked).",
+    "level_note": "Trusts the harness's own serialiser/strict reader (wire) and the scripted connection; standard transport via hook H1; netpoll only in the thorough loopback subset.",
+    "technique": "property-based testing (rapid) with a reference framing model + bounded-exhaustive near-miss header enumeration",
+    "nontrivial_floor": 500,
+    "units": [
+        {"name": "regress", "run": "^TestC01Regress$", "kind": "plain"},
+        {"name": "hostile-near-miss", "run": "^TestC01HostileNearMiss$", "kind": "plain", "shards": 8},
+        {"name": "streams", "run": "^TestC01Streams$", "kind": "rapid", "checks": {"quick": 12000, "thorough": 400000}, "shards": {"quick": 8, "thorough": 16}},
+    ],
+}
